@@ -115,8 +115,11 @@ def sh(cmd, **kw):
     return subprocess.run(cmd, shell=True, capture_output=True, text=True, **kw)
 
 
+ALL = '--all' in sys.argv
+
+
 def main():
-    want = sys.argv[1:]
+    want = [a for a in sys.argv[1:] if a != '--all']
     os.makedirs(os.path.join(V, 'mutants'), exist_ok=True)
     respath = os.path.join(V, 'mutants', 'RESULTS.json')
     results = json.load(open(respath)) if os.path.exists(respath) else {}
@@ -142,11 +145,16 @@ def main():
         r = sh('cd %s && /venv/bin/python -m pytest -q -p no:cacheprovider -x 2>&1 | tail -1' % SCRATCH, env=env)
         suite = r.stdout.strip()
         if '1576 passed' not in suite:
-            print('%-32s killed by the repository suite (%s) - discarded' % (name, suite[:40]))
-            results[name] = {'status': 'killed-by-suite', 'suite': suite[:80], 'file': f}
-            json.dump(results, open(respath, 'w'), indent=1, sort_keys=True)
-            continue
-        res = {'status': 'survives-suite', 'file': f, 'expected': checks, 'checks': {}}
+            if not ALL:
+                print('%-32s killed by the repository suite (%s) - discarded' % (name, suite[:40]))
+                results[name] = {'status': 'killed-by-suite', 'suite': suite[:80], 'file': f}
+                json.dump(results, open(respath, 'w'), indent=1, sort_keys=True)
+                continue
+            res = {'status': 'killed-by-suite', 'suite': suite[:80], 'file': f, 'expected': checks, 'checks': {}}
+        else:
+            if ALL:
+                continue
+            res = {'status': 'survives-suite', 'file': f, 'expected': checks, 'checks': {}}
         run = checks or ['C01', 'C02', 'C03']
         for c in run:
             r = sh('cd %s && VERIF_REPO=%s /venv/bin/python -m vmon check %s --tier quick' % (V, SCRATCH, c))
